@@ -25,7 +25,7 @@ def step (s : St) (w : List String) : St × String :=
   | ["cm", n, sp, pr, pts, ph, mt, T] =>
     match n.toNat?, parseBool? sp, rank? pr, pts.toNat?, ph.toNat?, parseInt? mt, parseInt? T with
     | some n, some sp, some pr, some pts, some ph, some mt, some T =>
-      (s, showRes toString (correctMiner n sp pr pts ph mt T))
+      (s, showRes toString (correctMinerGo n sp pr pts ph mt T))
     | _, _, _, _, _, _, _ => (s, "bad-op")
   | ["md", n, sp, pr, me] =>
     match n.toNat?, parseBool? sp, rank? pr, me.toNat? with
